@@ -111,3 +111,43 @@ fn c18_redirect_gate() {
     kani::cover!(!got && p != 0 && k == 2, "W:redirect.refused_for_permission");
     core::mem::forget(st);
 }
+
+// ------------------------------------------------------------------------------------------- C18.scriptlet_gate
+/// the permission gate every scriptlet and every transitive dependency passes through: the real
+/// `get_permissioned_resource` after the name lookup, for every (required, granted) pair, resource found or not.
+#[kani::proof]
+#[kani::unwind(4)]
+#[kani::stub(ResourceStorage::get_internal_resource, stub_get_internal_resource)]
+#[kani::stub(std::hash::RandomState::new, crate::verif_shim::stub_random_state_new)]
+fn c18_scriptlet_gate() {
+    let mut dr = crate::verif_shim::Draw::new();
+    let required: u8 = dr.u8();
+    let granted: u8 = dr.u8();
+    let found: bool = dr.bool();
+    unsafe {
+        GATE_RES = if found {
+            Some(Resource {
+                name: String::new(),
+                aliases: Vec::new(),
+                kind: ResourceType::Template,
+                content: String::new(),
+                dependencies: Vec::new(),
+                permission: PermissionMask::from_bits(required),
+            })
+        } else {
+            None
+        };
+    }
+    let st = ResourceStorage::default();
+    let r = st.get_permissioned_resource("x", PermissionMask::from_bits(granted));
+    let subset = required & !granted == 0;
+    match r {
+        Ok(_) => assert!(found && subset, "P:gate.served_only_with_all_required_bits"),
+        Err(ScriptletResourceError::InsufficientPermissions) => assert!(found && !subset, "P:gate.refused_only_when_a_bit_is_missing"),
+        Err(ScriptletResourceError::NoMatchingScriptlet) => assert!(!found, "P:gate.unknown_only_when_absent"),
+        Err(_) => assert!(false, "P:gate.no_other_error"),
+    }
+    kani::cover!(found && subset && required != 0, "W:gate.served_privileged");
+    kani::cover!(found && !subset, "W:gate.refused");
+    core::mem::forget(st);
+}
